@@ -176,6 +176,25 @@ CHECKS.update({
     ),
 })
 
+CHECKS.update({
+    "C15": dict(
+        engine="ParallelMap.tla, ParallelMap_Trace.tla", category="model_checking",
+        text="ParallelMap.tla models the Rust parallel map at channel-operation granularity (spawn of min(T,N) "
+             "workers, recv/send rotation, drop, join, panic): TLC checks Order, NoSilentTruncation, OneOutstanding, "
+             "ReadAhead and DropTerminates for T in 1..4, N in 0..7, every drop position and every single panicking "
+             "item. /verif/rust_harness links /repo/rust and drives the real parallel_map with gate-controlled "
+             "mapped functions: an edge cover of the T<=3, N<=4 state graphs (which worker finishes when, relative "
+             "to next() and drop) is imposed, and every event log is validated against ParallelMap_Trace.tla. At the "
+             "Python level the extension rebuilt from the working tree is compared with the pure-Python reader for "
+             "1..6 shards x 1..8 threads x all supported compressions x shuffle, with early drops followed by a "
+             "thread-count check and a fresh iteration.",
+        design_ref="DESIGN.md 3.3, 4.4, 5/C15",
+        note="Trusted: std::sync::mpsc, thread spawn/join, the gate mechanism of the harness. Task start-up is "
+             "asynchronous (not gate-controlled); completion order, next() and drop are controlled.",
+        technique="TLA+ model checking + completion-order replay into the real Rust code + trace validation",
+    ),
+})
+
 NOT_YET = {}
 
 ALL = [f"C{i:02d}" for i in range(1, 21)]
